@@ -67,7 +67,10 @@ def _failing_keys(prop, overlay):
     program = Program(overlay=overlay)
     ctx = Ctx(prop, program, tier='quick', quiet=True)
     mod.run(ctx)
-    return sorted({o.key for o in ctx.failures()})
+    keys = sorted({o.key for o in ctx.failures()})
+    if not keys and ctx.deficits:
+        raise AnalysisError('; '.join(ctx.deficits))
+    return keys
 
 
 def _run_case(args):
@@ -155,6 +158,7 @@ def run_selftest(prop, seed=0, verbose=False, jobs=16):
 
 
 if __name__ == '__main__':
+    from selftest.runner import run_selftest      # one module identity for Skip
     props = sys.argv[1:] or sorted(f[:-3] for f in os.listdir(os.path.join(HERE, 'selftest'))
                                    if f.startswith('C') and f.endswith('.py'))
     rc = 0
